@@ -213,6 +213,14 @@ package services
 //@   modifies nothing
 //@   ensures only: result ==> svc.GetNamespace() == pod.GetNamespace() && pod.DeletionTimestamp != nil && pod.Status.Reason != "NodeLost" && pod.Status.PodIP != ""
 //@ end
+
+// C03 — a Service without selector designates no pod (its endpoints are managed
+// by hand): no pod of the namespace becomes a draining server of it
+//@ func (*c).GetTerminatingPods#selector
+//@   props C03
+//@   ensures selected: result.1 == nil && old(len(service.Spec.Selector)) == 0 ==> len(result.0) == 0
+//@   loop 1 invariant none: 0 <= $idx(1)
+//@ end
 //@ func (*c).GetTerminatingPods
 //@   props C01
 //@   requires c != nil && service != nil
